@@ -257,6 +257,18 @@ def step1 (fo : FloatOps) (fuel : Nat) (s : St) (op : Json) : E (St × Json) := 
       refusable do
         let tot ← others.foldlM (fun acc o => acc.iadd fo o) first
         pure (s.set out tot, Json.str "ok")
+  | "normalize_bins" =>
+    -- HistogramCollection(hs...).normalize_bins(): the members go to registers `outs`
+    let hs ← getList (fun x => x.getNat?) (← field op "hs")
+    let outs ← getList (fun x => x.getNat?) (← field op "outs")
+    let members ← hs.mapM s.get
+    match members with
+    | [] => pure (s, Json.str "REFUSED")
+    | m0 :: rest =>
+      if rest.any fun m => m.bins fo != m0.bins fo then pure (s, Json.str "REFUSED")
+      else
+        let res := H1.normalizeBins members
+        pure ((outs.zip res).foldl (fun st p => st.set p.1 p.2) s, Json.str "ok")
   | "merge" =>
     let r ← reg "h"
     let h ← s.get r
